@@ -349,23 +349,87 @@ def rule_null_first(ctx, m, files):
 
 def rule_equal_lengths(ctx, m):
     """SB-eqlen: StringUtils::IsEqual(a, b, n) compares n units; the equality members of String / StringView / StringStream
-    may call it only in conjunction with an *equality* of the two lengths (with >= it answers "starts with", and every key
-    comparison built on it -- hash-table lookups, GroupBy's key test -- accepts keys that merely share a prefix)."""
-    r = Rule("SB-eqlen", "the equality members compare contents only after an equality test of the two lengths", floor=8)
+    may reach it only where the two lengths are known to be EQUAL (with >= it answers "starts with", and every key comparison
+    built on it -- hash-table lookups, GroupBy's key test -- accepts keys that merely share a prefix), and they may answer "equal"
+    only there.  Must-analysis on the CFG: the fact "lengths equal" is established on the true edge of a length == test and on the
+    false edge of a length != test (short-circuit operators are edges of the CFG, so `a == b && IsEqual(..)` and an early
+    `if (a != b) return false;` are the same thing); it must hold at every call of IsEqual and at every return whose value is not
+    false once the length tests are taken as false."""
+    r = Rule("SB-eqlen", "the equality members compare contents, and answer 'equal', only where the two lengths were tested equal", floor=8)
     for f in m.functions:
-        if f.inst or f.cls not in ("Qentem::String", "Qentem::StringView", "Qentem::StringStream"):
+        if f.inst or f.cls not in ("Qentem::String", "Qentem::StringView", "Qentem::StringStream") or not f.cfg:
             continue
-        for c in astq.calls(f, "IsEqual"):
-            if len(f.call_args(c)) != 3 or f.call_receiver(c) is not None:
-                continue
-            ctx.note_fn(f)
+        base = f.name.split("<")[0]
+        calls = [c for c in astq.calls(f, "IsEqual") if len(f.call_args(c)) == 3 and f.call_receiver(c) is None]
+        is_eq_member = base in ("operator==", "IsEqual") and len(f.params) >= 1
+        if not calls:
+            continue
+
+        def len_atom(x):
+            n = f.nodes[f.strip(x)]
+            return n["k"] == "BinaryOperator" and n["op"] in ("==", "!=") and "Length()" in f.text(x) and not any(y in calls for y in f.walk(x))
+
+        def ev3(x):
+            x = f.strip(x)
+            n = f.nodes[x]
+            if n["k"] == "UnaryOperator" and n["op"] == "!":
+                v = ev3(n["ch"][0])
+                return None if v is None else (not v)
+            if n["k"] == "BinaryOperator" and n["op"] in ("&&", "||"):
+                a_, b_ = ev3(n["ch"][0]), ev3(n["ch"][1])
+                if n["op"] == "&&":
+                    return False if (a_ is False or b_ is False) else (True if (a_ and b_) else None)
+                return True if (a_ or b_) else (False if (a_ is False and b_ is False) else None)
+            if len_atom(x):
+                return n["op"] == "!="
+            v = f.const_value(x)
+            if v is not None:
+                return bool(v)
+            return None
+        ctx.note_fn(f)
+        blocks = f.blocks()
+        fact = {f.cfg["entry"]: False}
+        work = [f.cfg["entry"]]
+        it = 0
+        at_node = {}
+        while work and it < 4000:
+            it += 1
+            bid = work.pop()
+            st = fact[bid]
+            for e in blocks[bid]["el"]:
+                x = e.get("n")
+                if isinstance(x, int) and not e.get("k"):
+                    at_node[x] = st if x not in at_node else (at_node[x] and st)
+            for (s_, kind, payload) in dataflow.successors(f, blocks[bid]):
+                out = st
+                if kind in ("true", "false") and payload is not None and len_atom(payload):
+                    op = f.nodes[f.strip(payload)]["op"]
+                    if (op == "==") == (kind == "true"):
+                        out = True
+                new_ = out if s_ not in fact else (fact[s_] and out)
+                if s_ not in fact or new_ != fact[s_]:
+                    fact[s_] = new_
+                    work.append(s_)
+        for c in calls:
             top = c
             par = f.parents()
-            while par.get(top) is not None and (f.nodes[par[top]]["k"] in ("ParenExpr", "ImplicitCastExpr") or (f.nodes[par[top]]["k"] == "BinaryOperator" and f.nodes[par[top]]["op"] == "&&")):
+            while par.get(top) is not None and (f.nodes[par[top]]["k"] in ("ParenExpr", "ImplicitCastExpr") or (f.nodes[par[top]]["k"] == "BinaryOperator" and f.nodes[par[top]]["op"] in ("&&", "||"))):
                 top = par[top]
-            eqs = [x for x in f.walk(top) if f.nodes[x]["k"] == "BinaryOperator" and f.nodes[x]["op"] == "==" and "Length()" in f.text(x) and c not in set(f.walk(x))]
-            rel = [f.text(x) for x in f.walk(top) if f.nodes[x]["k"] == "BinaryOperator" and f.nodes[x]["op"] in ("<", "<=", ">", ">=") and "Length()" in f.text(x)]
-            r.ob(f.sig, f.text(top)[:80], bool(eqs) and not rel, "lengths compared with %s" % ("==" if eqs and not rel else (rel or "nothing") ), f.loc(c))
+            ok = bool(at_node.get(c))
+            r.ob(f.sig, f.text(top)[:80], ok, "every path to the comparison of contents passed an equality test of the two lengths" if ok else
+                 "the contents are compared on a path on which the two lengths were not tested equal (a shared prefix compares equal)", f.loc(c))
+        if not is_eq_member or base != "operator==":
+            continue
+        for ret in astq.nodes_of(f, "ReturnStmt"):
+            val = f.nodes[ret].get("val", -1)
+            if val is None or val < 0:
+                continue
+            v = ev3(val)
+            ok = (v is False) or bool(at_node.get(ret))
+            if v is False and f.const_value(val) is not None:
+                continue      # a literal `return false`
+            r.ob(f.sig, "return " + f.text(val)[:70], ok, "for operands of different length this return answers false or is not reached" if ok else
+                 "this return can answer 'equal' for operands of different length (decided by other operands only)", f.loc(ret))
     return r
 
 
@@ -555,15 +619,7 @@ def rule_overload_pairs(ctx, m, cls="Qentem::Value", rid="SB-overload", floor=3)
                 who = "source"
             else:
                 who = "element"
-            par = f.parents()
-            up, neg = par.get(c), False
-            while up is not None and f.nodes[up]["k"] in ("ParenExpr", "ImplicitCastExpr", "UnaryOperator"):
-                if f.nodes[up]["k"] == "UnaryOperator":
-                    if f.nodes[up]["op"] != "!":
-                        break
-                    neg = not neg
-                up = par.get(up)
-            pol = "not " if neg else ""
+            pol = ""    # the sense of the test is a matter of layout (if (!x) {..} against if (x) continue;): only who is asked what counts
             out.add("%s.%s%s" % (who, pol, nm))
         return out
     for (name, base), fs in sorted(groups.items()):
@@ -1092,4 +1148,199 @@ def rule_accumulate(ctx, m, files=("Digit.hpp",), rid="PR-accumulate"):
                  "every unit recognised as a digit at %s reaches the accumulation" % (f.loc(digit_test)[0] if isinstance(f.loc(digit_test), tuple) else f.loc(digit_test)) if bad is None else
                  "the accumulation of a recognised digit is skipped when `%s` is false, a condition on %s and not on `%s`: digits that carry value are consumed without being counted" % (
                      f.text(f.nodes[bad[0]]["cond"])[:60], ", ".join(sorted(set(bad[1]))), acc), f.loc(x))
+    return r
+
+
+def rule_rvalue_use(ctx, m, rid="RV-use", floor=100):
+    """RV-use: a parameter taken by rvalue reference is the caller's object given away.  Inside the function it is an lvalue, so
+    naming it where a value is wanted (constructor argument, right-hand side, plain call argument) COPIES it and leaves the caller's
+    object full -- the move overload then behaves like the copy overload (GroupBy re-uses one scratch object and relies on the
+    append emptying it).  Every use of such a parameter is one of: argument of Memory::Move / Forward, address-of, member access,
+    or an argument of a helper when the function afterwards empties the parameter itself (p.Reset() / p.Clear())."""
+    r = Rule(rid, "an rvalue-reference parameter is only moved from, inspected through its members, or emptied explicitly; it is never copied", floor=floor)
+    for f in m.functions:
+        if f.inst or not f.cfg:
+            continue
+        rps = {p["d"]: p for p in f.params if p.get("rref")}
+        if not rps:
+            continue
+        par = f.parents()
+        emptied = set()
+        for c in astq.calls(f):
+            rc = f.call_receiver(c)
+            if rc is not None and f.nodes[f.strip(rc)].get("d") in rps and (f.call_simple_name(c) or "") in ("Reset", "Clear"):
+                emptied.add(f.nodes[f.strip(rc)]["d"])
+        noted = False
+        for x in f.walk():
+            n = f.nodes[x]
+            if n["k"] != "DeclRefExpr" or n.get("d") not in rps:
+                continue
+            up = par.get(x)
+            while up is not None and f.nodes[up]["k"] in ("ParenExpr", "ImplicitCastExpr"):
+                up = par.get(up)
+            if up is None:
+                continue
+            un = f.nodes[up]
+            k = un["k"]
+            if k in ("MemberExpr", "CXXDependentScopeMemberExpr"):
+                ok, why = True, "member access"
+            elif k == "UnaryOperator" and un.get("op") == "&":
+                ok, why = True, "address taken (identity test)"
+            elif k in ("CallExpr", "CXXMemberCallExpr") and (f.call_simple_name(up) or "") in ("Move", "Forward"):
+                ok, why = True, "moved"
+            elif k in ("CallExpr", "CXXMemberCallExpr") and n["d"] in emptied:
+                ok, why = True, "handed to %s and emptied by the function afterwards" % (f.call_simple_name(up) or "a helper")
+            else:
+                ok, why = False, "`%s` names the rvalue-reference parameter `%s` as a plain value: the caller's object is copied, not moved, and stays full" % (f.text(up)[:60], n["n"])
+            if not noted:
+                ctx.note_fn(f)
+                noted = True
+            r.ob(f.sig, "%s in %s" % (n["n"], f.text(up)[:50]), ok, why, f.loc(x))
+    return r
+
+
+def rule_dispose_order(ctx, m, rid="O15-order"):
+    """O15-order: a range Dispose whose bounds are read from the container's own size (End(), Size()) must run while that size
+    still describes the elements: on no path is the size written (setSize / setLength / index_ = ...) before the Dispose that
+    reads it -- otherwise the range is empty (the dropped elements leak) or covers the wrong elements.  May-analysis on the CFG of
+    every member of the owning containers."""
+    r = Rule(rid, "a Dispose bounded by End()/Size() precedes every write of the size on its path", floor=5)
+    OWN = ("Qentem::Array", "Qentem::HashTable", "Qentem::HArray", "Qentem::HList")
+    for f in m.functions:
+        if f.inst or not f.cfg or f.cls not in OWN:
+            continue
+        disp = []
+        for c in astq.calls(f, "Dispose"):
+            a = f.call_args(c)
+            if len(a) != 2:
+                continue
+            reads = [y for y in f.walk(c) if y != c and f.nodes[y]["k"] in ("CallExpr", "CXXMemberCallExpr") and (f.call_simple_name(y) or "") in ("End", "Size", "Last") and
+                     (f.call_receiver(y) is None or f.nodes[f.strip(f.call_receiver(y))]["k"] == "CXXThisExpr")]
+            if reads:
+                disp.append(c)
+        if not disp:
+            continue
+        ctx.note_fn(f)
+        blocks = f.blocks()
+        # locals that captured the size before it was written are fine: only direct reads inside the Dispose count (above)
+        state = {f.cfg["entry"]: None}
+        work = [f.cfg["entry"]]
+        bad = {}
+        it = 0
+        while work and it < 5000:
+            it += 1
+            bid = work.pop()
+            st = state[bid]
+            for e in blocks[bid]["el"]:
+                x = e.get("n")
+                if not isinstance(x, int) or e.get("k"):
+                    continue
+                n = f.nodes[x]
+                if x in disp and st is not None:
+                    bad[x] = st
+                if n["k"] in ("CallExpr", "CXXMemberCallExpr") and (f.call_simple_name(x) or "") in ("setSize", "setLength") and \
+                        (f.call_receiver(x) is None or f.nodes[f.strip(f.call_receiver(x))]["k"] == "CXXThisExpr"):
+                    st = x
+            for (s_, k_, p_) in dataflow.successors(f, blocks[bid]):
+                if s_ not in state:
+                    state[s_] = st
+                    work.append(s_)
+                elif state[s_] is None and st is not None:
+                    state[s_] = st
+                    work.append(s_)
+        for c in disp:
+            r.ob(f.sig if len(m.fns(f.q, required=False)) > 1 else f.q, f.text(c)[:70], c not in bad,
+                 "no write of the size reaches this call" if c not in bad else
+                 "`%s` at %s runs first on some path: the bounds of the Dispose are read from the size it has just written, so the elements that are being dropped are not destroyed" % (
+                     f.text(bad[c])[:40], f.loc(bad[c])[0] if isinstance(f.loc(bad[c]), tuple) else f.loc(bad[c])), f.loc(c))
+    return r
+
+
+def rule_redispose(ctx, m, rid="O16-redispose"):
+    """O16-redispose: a function that destroys parts of a container's elements by hand (Memory::Dispose on a pointer into that
+    container's storage) has taken over their destruction; calling one of the container's own element-destroying members
+    (Reset, Clear, Drop, the destructor ...) on it afterwards destroys them a second time."""
+    from rules.borrow import destroys_elements_sets, owner_of_type
+    r = Rule(rid, "after a manual Dispose of a container's elements none of its element-destroying members is called on it", floor=2)
+    destroys = destroys_elements_sets(m)
+    for f in m.functions:
+        if f.inst or not f.cfg:
+            continue
+        inits = {}
+        types = {p["n"]: p["t"] for p in f.params}
+        for x in astq.nodes_of(f, "DeclStmt"):
+            for dd in f.nodes[x]["decls"]:
+                if "d" in dd and dd.get("init", -1) >= 0:
+                    inits[dd["d"]] = dd["init"]
+                if "n" in dd:
+                    types[dd["n"]] = dd.get("t", "")
+        manual = []   # (dispose call, container text)
+        for c in astq.calls(f, "Dispose"):
+            a = f.call_args(c)
+            if len(a) != 1:
+                continue
+            # root pointer of the argument
+            cur = f.strip(a[0])
+            hops = 0
+            root = None
+            while hops < 10:
+                hops += 1
+                n = f.nodes[cur]
+                if n["k"] == "UnaryOperator" and n["op"] in ("&", "*") and n.get("ch"):
+                    cur = f.strip(n["ch"][0])
+                elif n["k"] in ("MemberExpr", "CXXDependentScopeMemberExpr") and n.get("ch"):
+                    cur = f.strip(n["ch"][0])
+                elif n["k"] == "ParenExpr":
+                    cur = f.strip(n["ch"][0])
+                elif n["k"] == "DeclRefExpr":
+                    root = n
+                    break
+                else:
+                    break
+            if root is None or root.get("tk") != "ptr" or root.get("d") not in inits:
+                continue
+            src = f.strip_casts(inits[root["d"]])
+            sn = f.nodes[src]
+            if sn["k"] in ("CallExpr", "CXXMemberCallExpr") and (f.call_simple_name(src) or "") in ("Storage", "First", "Last", "End") and f.call_receiver(src) is not None:
+                rc = f.strip(f.call_receiver(src))
+                if f.nodes[rc]["k"] == "DeclRefExpr":
+                    manual.append((c, f.nodes[rc]["n"]))
+        if not manual:
+            continue
+        ctx.note_fn(f)
+        blocks = f.blocks()
+        pos = {}
+        for b in f.cfg["blocks"]:
+            for i, e in enumerate(b["el"]):
+                if isinstance(e.get("n"), int) and not e.get("k"):
+                    pos[e["n"]] = (b["id"], i)
+        for (c, cont) in manual:
+            owner = owner_of_type(types.get(cont, ""))
+            dset = destroys.get(owner, set()) | (destroys.get("Qentem::HashTable", set()) if owner in ("Qentem::HArray", "Qentem::HList") else set())
+            if c not in pos:
+                continue
+            # calls reachable after c
+            start_b, start_i = pos[c]
+            seen = set()
+            work = [(start_b, start_i + 1)]
+            hit = None
+            while work and hit is None:
+                bid, i0 = work.pop()
+                if (bid, i0 > 0) in seen:
+                    continue
+                seen.add((bid, i0 > 0))
+                for e in blocks[bid]["el"][i0:]:
+                    x = e.get("n")
+                    if not isinstance(x, int) or e.get("k"):
+                        continue
+                    n = f.nodes[x]
+                    if n["k"] in ("CXXMemberCallExpr", "CallExpr") and f.call_receiver(x) is not None and f.nodes[f.strip(f.call_receiver(x))].get("n") == cont and (f.call_simple_name(x) or "") in dset:
+                        hit = x
+                        break
+                for (s_, k_, p_) in dataflow.successors(f, blocks[bid]):
+                    work.append((s_, 0))
+            r.ob(f.sig if len(m.fns(f.q, required=False)) > 1 else f.q, "%s ... %s" % (f.text(c)[:40], cont), hit is None,
+                 "no element-destroying member of `%s` is called afterwards (its block is released without running destructors)" % cont if hit is None else
+                 "`%s` at %s destroys the elements of `%s` again after parts of them were disposed by hand: the blocks they own are released twice" % (
+                     f.text(hit)[:40], f.loc(hit)[0] if isinstance(f.loc(hit), tuple) else f.loc(hit), cont), f.loc(c))
     return r
